@@ -368,3 +368,53 @@ def ml_t2_plain(t2):
 def ml_ret_plain(r):
     """the type names of a return type are plain (strings all the way down)"""
     return wf_tn_plain(r.type1.typename) and ml_t2_plain(r.type2)
+
+
+# ---------------------------------------------------------------- C10: the preamble of the MEX source
+@spec()
+def ml_pre_ignored(w, c):
+    """the class is named in the ignore list (by its qualified name)"""
+    return '::'.join(([''] + ns_chain(c.parent))[1:] + [c.name]) in w.ignore_classes
+
+
+@spec()
+def ml_pre_name(c):
+    """identifier of the class in the MEX source: namespaces and name run together"""
+    return ((''.join(['' + x for x in ([''] + ns_chain(c.parent.parent) + ([c.parent.name] if c.parent.name != '' else []))]) + '')[0:]
+            + c.name)
+
+
+@spec()
+def ml_pre_cpp(c):
+    """C++ type of the class in the MEX source: the typedef name of an instantiation, else the qualified name"""
+    return c.name if len(c.instantiations) > 0 else ic_cpp(c)
+
+
+@spec(rec=True, ret='str', reads='tree')
+def ml_collectors(w, classes, k):
+    """one collector typedef + object per class that is not ignored, in order"""
+    if k <= 0:
+        return ''
+    return (ml_collectors(w, classes, k - 1)
+            + ('' if ml_pre_ignored(w, classes[k - 1]) else
+               'typedef std::set<std::shared_ptr<' + ml_pre_cpp(classes[k - 1]) + '>*> Collector_' + ml_pre_name(classes[k - 1]) + ';\n'
+               + 'static Collector_' + ml_pre_name(classes[k - 1]) + ' collector_' + ml_pre_name(classes[k - 1]) + ';\n'))
+
+
+@spec(rec=True, ret='str', reads='tree')
+def ml_deletes(w, classes, k):
+    """one clean-up block per class that is not ignored: every collector is emptied at unload"""
+    if k <= 0:
+        return ''
+    return (ml_deletes(w, classes, k - 1)
+            + ('' if ml_pre_ignored(w, classes[k - 1]) else WrapperTemplate.delete_obj.format(class_name=ml_pre_name(classes[k - 1]))))
+
+
+@spec(rec=True, ret='str', reads='tree')
+def ml_rtti(w, classes, k):
+    """one registry entry per virtual class that is not ignored"""
+    if k <= 0:
+        return ''
+    return (ml_rtti(w, classes, k - 1)
+            + ('    types.insert(std::make_pair(typeid(' + ml_pre_cpp(classes[k - 1]) + ').name(), "' + ml_pre_name(classes[k - 1]) + '"));\n'
+               if (not ml_pre_ignored(w, classes[k - 1]) and classes[k - 1].is_virtual != '') else ''))
